@@ -70,7 +70,7 @@ func runC16(r *Run) {
 	r.NotDec = []string{"timing under parameter changes and chain downtime as a temporal statement", "what happens to entries registered for an epoch that already ended"}
 	r.Assume = []string{"effect summaries identify which queue family a helper touches; key families are resolved from the SSA"}
 	r.rule("C16.R1", "queue family agreement: codec and key-constructor agreement of every dogfood family; each per-epoch append reads its own queue family and no other queue/pending family", 20)
-	r.rule("C16.R2", "promote-then-clear: in the dogfood epoch hook, under the identifier equality, for each queue: Get(epoch) -> SetPending(that list) -> Clear(epoch), each unconditional and in this order; the epoch-end marker is set on that arm", 5)
+	r.rule("C16.R2", "promote-then-clear: in the dogfood epoch hook, under the identifier equality, for each queue: Get(epoch) -> SetPending(that list) -> Clear(epoch), each unconditional and in this order; the epoch-end marker is set on that arm", 7)
 	r.rule("C16.R3", "apply-then-clear: dogfood EndBlock, under the epoch-end marker, reads each pending list, applies each element, then deletes the list unconditionally; the marker is cleared (deferred)", 5)
 	r.rule("C16.R4", "schedule pairing: every live scheduling site writes queue + reverse lookup (+ hold) with the same key and epoch", 2)
 	r.rule("C16.R5", "completion epoch = CurrentEpoch(of the dogfood identifier) + EpochsUntilUnbonded", 1)
@@ -196,6 +196,41 @@ func runC16(r *Run) {
 		if arm != nil {
 			s := exprString(arm.Cond)
 			armOK = strings.Contains(s, "GetEpochIdentifier") && (strings.Contains(s, "== 0") || strings.Contains(s, "=="))
+		}
+		// the per-operator finish epoch is dropped when the opt-out is promoted (so that nothing can be appended to
+		// a queue entry that has already been drained)
+		{
+			okDel := false
+			for _, c := range hook.CallsNamed("DeleteOperatorOptOutFinishEpoch") {
+				lp, isLoop := hook.innermostLoop(c).(*ast.RangeStmt)
+				if !isLoop || len(c.Args) != 2 || hook.objOf(c.Args[1]) != hook.objOf(lp.Value) {
+					continue
+				}
+				for _, d := range hook.resolveDefs(lp.X, 0) {
+					if cc, ok := stripParens(d).(*ast.CallExpr); ok && hook.calleeName(cc) == "GetOptOutsToFinish" {
+						okDel = true
+					}
+				}
+			}
+			r.check(okDel, "C16.R2", "optout|finish-epoch-dropped-at-promotion", hook.pos(hook.Decl), "when an opt-out is promoted to pending its per-operator finish epoch is deleted in the same step", "the epoch hook does not delete the finish epoch of every promoted opt-out: an undelegation in the completion block is queued under an epoch that has already been drained and is never released")
+			var callers []string
+			if fn := w.Fn("x/dogfood/keeper", "Keeper.DeleteOperatorOptOutFinishEpoch"); fn != nil {
+				if node := w.CG.Nodes[fn]; node != nil {
+					for _, in := range node.In {
+						if w.fnInScope(in.Caller.Func) {
+							callers = append(callers, fnName(in.Caller.Func))
+						}
+					}
+				}
+			}
+			callers = uniq(callers)
+			okC := len(callers) > 0
+			for _, c := range callers {
+				if !strings.Contains(c, "AfterEpochEnd") && !strings.HasSuffix(c, "DeleteOperatorOptOutFinishEpoch") {
+					okC = false
+				}
+			}
+			r.check(okC, "C16.R2", "optout|finish-epoch-only-dropped-at-promotion", hook.pos(hook.Decl), "the finish epoch is deleted only at promotion", "DeleteOperatorOptOutFinishEpoch is called from "+strings.Join(callers, ", "))
 		}
 		r.check(armOK, "C16.R2", "identifier-arm", hook.pos(hook.Decl), "promotion happens only for the dogfood epoch identifier", "no `identifier == GetEpochIdentifier(ctx)` arm found")
 		if arm != nil {
